@@ -17,7 +17,9 @@ DRIVER = "Drivers/C29.lean"
 THEOREMS = ["Ebv.C29.devicevars_collected", "Ebv.C29.dedupGo_mem", "Ebv.C29.devices_disjoint_full_proved", "Ebv.C29.devices_inside",
             "Ebv.C29.other_var_unchanged", "Ebv.C29.shared_roundtrip", "Ebv.C29.devices_disjoint_old_refuted",
             "Ebv.C29.devGet_none", "Ebv.C29.devGet_plain", "Ebv.C29.devGet_plain_default", "Ebv.C29.devGet_loaded",
-            "Ebv.C08.collect_disjoint_full_proved", "Ebv.C08.py_roundtrip"]
+            "Ebv.C08.collect_disjoint_full_proved", "Ebv.C08.py_roundtrip",
+            "Ebv.C08.collect_history_free", "Ebv.C08.collect_frame", "Ebv.C08.history_layout",
+            "Ebv.C29.collects_of_size", "Ebv.C29.regrouped_layout", "Ebv.C29.regrouped_devices_disjoint"]
 TRUSTED = ["hand-written model Ebv.Collect (simDiscover, collect, accessors, devGet), tied by exact correspondence on generated device sets",
            "which map DeviceVar and ProcessSyncGroup.properties are bound to is read off the real classes on every run and is the "
            "hypothesis of devicevars_collected (checked by the oracle)",
@@ -29,6 +31,11 @@ ASSUMPTIONS = ["bytes written to the shared multiprocessing Array by one process
 RULE = ("cases = 1-4 device classes (chains of 1-3 classes) with 0-5 DeviceVars each, 1-5 device instances (a class may be used several times, "
         "rarely the same device twice), optional overriding redeclaration; group kind process (real ProcessSyncGroup) mostly, plain SyncGroup / "
         "no group for the dispatch; all variables incl. wkc_errors written with distinct values by one side and read by the other; "
+        "35% of the process cases are the LAST group of a history: 1-3 earlier groups (80% process, 20% plain) were created before it in the same "
+        "process over a common pool of devices - devices of the final group may have been in them, in another order, next to other devices, "
+        "alone - each earlier process group is judged right after its creation and written, in plain groups small integers are written (they "
+        "land in the device's __dict__), and at the end every variable an earlier process group still owns must read back unchanged; the "
+        "final group of such a history also goes through the spawned child; "
         "non-trivial = at least two devices with variables")
 
 WKC = 50          # the model's number of the group's own variable `wkc_errors`
@@ -73,7 +80,58 @@ def gen(rng, group="process"):
     case["sets"] = [[i, v, c08.rand_values(rng, fmt_of(case, (i, v)))] for i, v in keys]
     case["back"] = [[i, v, c08.rand_values(rng, fmt_of(case, (i, v)))] for i, v in keys]
     case["wkc"] = [rng.randrange(2 ** 32), rng.randrange(2 ** 32)]
+    if group == "process" and rng.random() < 0.35:
+        add_pre(rng, case)
     return case
+
+
+# ---- earlier groups of the same process ---------------------------------------------------------------------
+# `case["pre"]`: sync groups created (and used) BEFORE the group the case is about, over a common pool of devices:
+# a device of the final group may have been in one or several of them (in another order, next to other devices,
+# alone), in a process group (it was laid out in that group's array) or in a plain one (where a written DeviceVar
+# is an entry of the device's `__dict__`).  Group numbers: the final group is 0, earlier ones 200, 201, ...
+
+def add_pre(rng, case):
+    pool = {i: c for c, i in case["subs"]}
+    names = [k for k, v in case["classes"]]
+    case["pre"] = []
+    for j in range(rng.choice([1, 1, 2, 3])):
+        devs = []
+        for _ in range(rng.choice([1, 2, 2, 3])):
+            if rng.random() < 0.65:
+                i = rng.choice(sorted(pool))
+            else:
+                i = max([9] + list(pool)) + 1
+                pool[i] = rng.choice(names)
+            if all(d[1] != i for d in devs):
+                devs.append([pool[i], i])
+        case["pre"].append({"group": "process" if rng.random() < 0.8 else "plain", "id": 200 + j, "devs": devs})
+    for j, p in enumerate(case["pre"]):
+        keys = pre_keys(case, j)
+        rng.shuffle(keys)
+        if p["group"] == "process":
+            p["sets"] = [[i, v, c08.rand_values(rng, pre_fmt(case, j, (i, v)))] for i, v in keys]
+        else:       # plain integers into the `__dict__`, of the size of an offset
+            p["sets"] = [[i, v, [rng.randrange(0, 40)]] for i, v in keys if pre_fmt(case, j, (i, v)) in ("B", "H", "I", "Q")]
+    return case
+
+
+def pre_keys(case, j):
+    inst = {i: c for c, i in case["pre"][j]["devs"]}
+    return [(i, v) for i, c in inst.items() for v in c08.resolved(case, c)]
+
+
+def pre_fmt(case, j, key):
+    inst = {i: c for c, i in case["pre"][j]["devs"]}
+    return c08.resolved(case, inst[key[0]])[key[1]][1]
+
+
+def pre_alive(case, j):
+    """the variables of earlier process group j whose device was not put into a later group: still that group's"""
+    if case["pre"][j]["group"] != "process":
+        return []
+    later = {i for p in case["pre"][j + 1:] for c, i in p["devs"]} | {i for c, i in case["subs"]}
+    return [k for k in pre_keys(case, j) if k[0] not in later]
 
 
 def dev_keys(case):
@@ -205,6 +263,23 @@ class Live:
         self.case = case
         self.classes = build_classes(case["classes"])
         self.devs = {}
+        self.pre = []
+        for j, p in enumerate(case.get("pre", [])):      # the earlier groups: created, looked at, written from Python
+            for c, i in p["devs"]:
+                self.devs.setdefault(i, self.classes[c]())
+            devices = [self.devs[i] for c, i in p["devs"]]
+            g = (ProcessSyncGroup if p["group"] == "process" else SyncGroup)(FakeEC(), devices)
+            arr = g.__dict__.get("properties")
+            rec = {"group": g, "size": None if arr is None else len(arr),
+                   "ranges": [(self.devs[i].__dict__.get(v), c08.csize(pre_fmt(case, j, (i, v))), (i, v)) for i, v in pre_keys(case, j)],
+                   "sets": []}
+            for i, v, vals in p["sets"]:
+                try:
+                    setattr(self.devs[i], v, c08.to_py(pre_fmt(case, j, (i, v)), vals))
+                    rec["sets"].append("ok")
+                except Exception as e:
+                    rec["sets"].append(c08.exc_name(e))
+            self.pre.append(rec)
         for c, i in case["subs"]:
             self.devs.setdefault(i, self.classes[c]())
         devices = [self.devs[i] for c, i in case["subs"]]
@@ -214,14 +289,43 @@ class Live:
         elif case["group"] == "plain":
             self.sg = SyncGroup(FakeEC(), devices)
 
-    def model_progs(self, b):
+    def model_progs(self, b, gid=0, devs=None, process=None):
         specs = dict(self.case["classes"])
-        progs = [{"id": 0, "mro": b["group_decls"] if self.case["group"] == "process" else []}]
-        for c, i in self.case["subs"]:
+        process = self.case["group"] == "process" if process is None else process
+        progs = [{"id": gid, "mro": b["group_decls"] if process else []}]
+        for c, i in self.case["subs"] if devs is None else devs:
             mro = [[[c08.vid(v), b["devmap"], f] for v, m, f in specs[k.__name__]["vars"]]
                    if self.classes.get(k.__name__) is k else [] for k in self.classes[c].__mro__]
             progs.append({"id": i, "mro": mro})
         return progs
+
+    def pre_reads(self):
+        """every variable the earlier process groups still own, read now: (key, format, expected values, what Python gets)"""
+        out = []
+        for j, p in enumerate(self.case.get("pre", [])):
+            exp = {(i, v): vals for i, v, vals in p["sets"]}
+            for k in pre_alive(self.case, j):
+                out.append((k, pre_fmt(self.case, j, k), exp[k], get_var(self.case, self.devs, k[0], k[1])))
+        return out
+
+    def pre_part(self, b, prs):
+        """the earlier groups in the driver's notation, and the model's input for them"""
+        case = self.case
+        a = next((a for ms in b["mapmro"] for a, m in ms if a == 0), 0)
+        parts, mi = [], []
+        for p, r in zip(case["pre"], self.pre):
+            if p["group"] == "plain":
+                parts.append("plain ops=" + ",".join(r["sets"]))
+                mi.append({"group": "plain", "sets": [[i, c08.vid(v), vals] for i, v, vals in p["sets"]]})
+                continue
+            wk = r["group"].__dict__.get("wkc_errors")
+            pos = [f"{p['id']}.{WKC}@{'-' if wk is None else wk}"] + [f"{k[0]}.{c08.vid(k[1])}@{'-' if q is None else q}" for q, s_, k in r["ranges"]]
+            parts.append(f"maps={a}:{b['props_map']}:{0 if r['size'] is None else r['size']} pos=" + " ".join(pos) + " ops=" + ",".join(r["sets"]))
+            mi.append({"group": "process", "main": p["id"], "progs": self.model_progs(b, p["id"], p["devs"], True), "mapmro": b["mapmro"],
+                       "sets": [[i, c08.vid(v), vals] for i, v, vals in p["sets"]],
+                       "reads": [[p["id"], WKC]] + [[k[0], c08.vid(k[1])] for q, s_, k in r["ranges"]]})
+        line = " pre=" + " ; ".join(parts) + " prereads=" + " ".join(canon(f, got) for k, f, vals, got in prs)
+        return line, mi, [[k[0], c08.vid(k[1])] for k, f, vals, got in prs]
 
 
 def canon(fmt, r):
@@ -284,6 +388,8 @@ def model_lines(case, live, b, phase2=True):
     s2 = s1 + [[i, c08.vid(v), vals] for i, v, vals in case["back"]] + \
         ([[0, WKC, [case["wkc"][1]]]] if case["group"] == "process" else [])
     base = {"progs": progs, "mapmro": b["mapmro"], "group": case["group"], "reads": rk}
+    if live.pre:
+        _, base["pre"], base["prereads"] = live.pre_part(b, live.prs)
     return [dict(base, sets=s1)] + ([dict(base, sets=s2)] if phase2 else [])
 
 
@@ -334,9 +440,12 @@ def run_batch(cases, spawn):
     for case, live, r1, (reads1, res2) in zip(cases, lives, res1, got):
         reads2 = read_all(case, live)
         l2 = snapshot(case, live, b, r1 + res2, reads2)
+        live.prs = live.pre_reads() if live.pre else []
+        if live.pre:
+            l2 += live.pre_part(b, live.prs)[0]
         # the state after phase 1 is gone; its line is rebuilt from what the reader saw plus the layout part of l2
         l1 = snapshot_phase1(case, live, b, r1, reads1, l2)
-        out.append((l1, l2, reads1, reads2, b, (live_ranges(case, live), None, model_lines(case, live, b))))
+        out.append((l1, l2, reads1, reads2, b, (live_ranges(case, live) + (live.pre, live.prs), None, model_lines(case, live, b))))
     return out
 
 
@@ -352,6 +461,8 @@ def retag(case, tag):
     ren = {k: f"T{tag}{k}" for k, v in case["classes"]}
     case["classes"] = [[ren[k], dict(v, bases=[ren[x] for x in v["bases"]])] for k, v in case["classes"]]
     case["subs"] = [[ren[c], i] for c, i in case["subs"]]
+    for p in case.get("pre", []):
+        p["devs"] = [[ren[c], i] for c, i in p["devs"]]
     return case
 
 
@@ -375,7 +486,19 @@ def oracle(ctx, case, reads1, reads2, b, live_ranges):
     if not ctx.require(b["props_map"] == b["devmap"], "DeviceVars are not bound to the ProcessSyncGroup's shared map",
                        case, f"properties -> map {b['props_map']}, DeviceVar -> map {b['devmap']}"):
         return
-    size, rs = live_ranges
+    size, rs, pre, prs = live_ranges
+    for j, r in enumerate(pre):          # every earlier process group, as it was right after its creation
+        if case["pre"][j]["group"] != "process":
+            continue
+        sz, prs_j = r["size"], r["ranges"]
+        bad = next((f"{k} at {p}+{s} in an array of {sz}" for p, s, k in prs_j if p is None or sz is None or p + s > sz), None)
+        if bad is None:
+            bad = next((f"{x[2]} [{x[0]},{x[0] + x[1]}) overlaps {y[2]} [{y[0]},{y[0] + y[1]})" for n, x in enumerate(prs_j)
+                        for y in prs_j[n + 1:] if x[2][0] != y[2][0] and not (x[0] + x[1] <= y[0] or y[0] + y[1] <= x[0])), None)
+        if not ctx.require(bad is None, f"device variables of group {j} of the process share storage / have no place in its array", case, bad, cls):
+            return
+        if not ctx.require(all(x == "ok" for x in r["sets"]), f"writing a DeviceVar in group {j} of the process raised", case, r["sets"], cls):
+            return
     bad = next((f"{k} at {p}+{s} in an array of {size}" for p, s, k in rs if p is None or size is None or p + s > size), None)
     if bad is None:
         bad = next((f"{x[2]} [{x[0]},{x[0] + x[1]}) overlaps {y[2]} [{y[0]},{y[0] + y[1]})" for n, x in enumerate(rs)
@@ -395,11 +518,17 @@ def oracle(ctx, case, reads1, reads2, b, live_ranges):
                 return
         if not ctx.require(reads["wkc"] == ("ok", wkc), "wkc_errors not shared", case, f"wrote {wkc} read {reads['wkc']!r}", cls):
             return
+    for k, f, vals, got in prs:          # what was written in an earlier group that still owns the device is still there
+        want = c08.to_py(f, vals)
+        if not ctx.require(got[0] == "ok" and type(got[1]) is type(want) and got[1] == want,
+                           "a DeviceVar of an earlier group of the process reads back differently after later groups were created", case,
+                           f"{k}: wrote {want!r} read {got!r}", cls):
+            return
 
 
 def live_ranges(case, live):
     if case["group"] != "process":
-        return None, []
+        return None, []      # (no earlier groups in these cases)
     arr = live.sg.__dict__.get("properties")
     rs = [(live.devs[i].__dict__.get(v), c08.csize(fmt_of(case, (i, v))), (i, v)) for i, v in dev_keys(case)]
     rs.append((live.sg.__dict__.get("wkc_errors"), 4, (0, "wkc_errors")))
@@ -412,6 +541,8 @@ def check_batch(ctx, cases, spawn, pending):
     for case, (l1, l2, reads1, reads2, b, lr) in zip(cases, results):
         ctx.case(case, nontrivial=len({i for i, v in dev_keys(case)}) >= 2,
                  kind=case["group"] + ("-spawn" if spawn else "") + (":" + shape(case) if shape(case) else ""))
+        if case.get("pre"):
+            ctx.stats["after-earlier-groups"] += 1
         oracle(ctx, case, reads1, reads2, b, lr[0])
         pending.append((case, l1, l2, lr[2]))
 
@@ -438,7 +569,7 @@ def run(ctx):
     if model is not None:
         n = 0
         for (case, l1, l2, ml), cnt in zip(pending, owners):
-            ctx.agree("values the other side reads", case, l1, model[n].split(" reads=")[1])
+            ctx.agree("values the other side reads", case, l1, model[n].split(" reads=")[1].split(" pre=")[0])
             ctx.agree("shared array after both directions", case, l2, model[n + 1])
             n += cnt
 
@@ -453,7 +584,10 @@ LEVEL_TEXT = ("Lean 4 proof over the shared model Ebv.Collect: for every group c
               "bound to and every list of devices with arbitrary class chains (incl. redeclared DeviceVars and devices listed twice), every DeviceVar "
               "of every device has a position in the group's shared array (devicevars_collected), variables of different devices occupy disjoint "
               "ranges inside the array (devices_disjoint_full_proved, devices_inside, from C08.collect_disjoint_full_proved), a written value is read "
-              "back for every format and no other variable changes (shared_roundtrip, other_var_unchanged, from C08.py_roundtrip); the collection "
+              "back for every format and no other variable changes (shared_roundtrip, other_var_unchanged, from C08.py_roundtrip); after any history "
+              "of group creations - devices laid out before in other groups, in plain groups, alone, in another order - a group none of whose devices "
+              "was put into a later group has every device variable at the position of a layout from scratch, different devices disjoint and inside "
+              "its array (regrouped_layout, regrouped_devices_disjoint, from C08.history_layout); the collection "
               "before commit 6422374 is refuted on its witness (devices_disjoint_old_refuted). Tie: exact correspondence with the real "
               "ProcessSyncGroup, values crossing a really spawned child process in both directions for a few configurations per run.")
 LEVEL_NOTE = ("trusted: Lean kernel + standard axioms; hand model validated by differential runs; multiprocessing shared memory and pickling; "
